@@ -1,4 +1,79 @@
-From Coq Require Import ZArith List Bool.
-From ExaV Require Import proofs.Proofs_Update.
-Theorem C02_placeholder : True. Proof. exact placeholder_true. Qed.
-Print Assumptions C02_placeholder.
+(* C02 - Reported routes are exactly what the peer sent.
+   Statements only; every proof is `exact <lemma>`; assumptions are printed.
+   dec_update is the REPAIRED generation of the decoder (Model_Update, fixed = true: proposed repairs R1-R6),
+   dec_update_pinned / merge_pinned the pinned tree.  Spec_Wire is the RFC reference.
+   Proved for ALL byte strings: the attribute part of the agreement with the reference for the scalar and the
+   unrecognised attributes (TLV walk, any order, extended length, Partial bit), End-of-RIB recognition, the
+   RFC 6793 merge.  The NLRI sections, MP_REACH/MP_UNREACH framing, AS path syntax and LARGE_COMMUNITY
+   de-duplication are tied by the correspondence (harness/c02.py: implementation = model = Spec_Wire.ref_update
+   evaluated in Coq = content owned by the generator); one prefix NLRI is C15. *)
+From Coq Require Import ZArith Bool List.
+From ExaV Require Import gen.Gen_AttrTable gen.Gen_NlriRegistry model.Model_Nlri model.Model_Update spec.Spec_Wire
+  proofs.Proofs_Nlri proofs.Proofs_Update.
+Import ListNotations.
+Open Scope Z_scope.
+
+(* ---- agreement with the reference decoder, attribute part.
+   ab: any byte string (the Path Attributes field); l: its TLVs per RFC 4271 4.3; every attribute well formed as a
+   conforming peer writes it (attr_wellformed), no code twice, each either one of ORIGIN, NEXT_HOP, MED, LOCAL_PREF,
+   ATOMIC_AGGREGATE, AGGREGATOR, COMMUNITY, ORIGINATOR_ID, CLUSTER_LIST, EXTENDED_COMMUNITY, AS4_AGGREGATOR,
+   IPV6_EXTENDED_COMMUNITY or unrecognised (simple).  Then the decoder raises nothing, records no treat-as-withdraw
+   and no discard, and its attribute collection is, entry by entry and in order, the reference's: recognised
+   attributes with their bytes, unrecognised transitive ones with the Partial bit set, unrecognised
+   non-transitive ones left out. *)
+Theorem C02_agrees_with_reference_attributes : forall opq s other ab l,
+  wfb ab -> tlvs (length ab) ab = Some l ->
+  forallb (attr_wellformed other (rs_of s)) l = true -> nodup_codes l = true -> forallb simple l = true ->
+  exists m, unpack_attrs true opq s ab = POk m /\ map entry_of m = flat_map (attr_entry (rs_of s)) l.
+Proof. exact attributes_agree. Qed.
+
+(* ---- End-of-RIB: the RFC 4724 markers are recognised for their family ... *)
+Theorem C02_eor_v4 : forall opq s, dec_update opq s [0;0;0;0] = EndOfRib 1 1.
+Proof. exact eor_v4. Qed.
+
+Theorem C02_eor_mp : forall opq s afi safi, 0 <= afi < 65536 ->
+  dec_update opq s (EOR_PREFIX ++ [afi / 256; afi mod 256; safi]) = EndOfRib afi safi.
+Proof. exact eor_prefix_form. Qed.
+
+(* ... and only for End-of-RIB shapes: the two markers, or an UPDATE that yields no route and no attribute *)
+Theorem C02_eor_only : forall opq s b afi safi,
+  dec_update opq s b = EndOfRib afi safi ->
+  b = [0;0;0;0]
+  \/ (zlen b = 11 /\ firstn 8 b = EOR_PREFIX)
+  \/ (exists u m ab, parse_payload true opq s b = (Decoded u, m, ab) /\ u_ann u = [] /\ u_wd u = [] /\ u_attrs u = []).
+Proof. exact eor_only. Qed.
+
+(* ---- AS_PATH + AS4_PATH are replaced by the RFC 6793 4.2.3 reconstruction (Spec_Wire.rfc6793), every other
+   attribute untouched *)
+Theorem C02_as4_merge : forall m f2 f4 a2 a4 p2 p4,
+  ahas m CODE_TREAT_AS_WITHDRAW = false ->
+  aget m A_AS_PATH = Some (mkA A_AS_PATH f2 (VPath a2 p2)) ->
+  aget m A_AS4_PATH = Some (mkA A_AS4_PATH f4 (VPath a4 p4)) ->
+  exists m', post_parse true m = POk m'
+    /\ aget m' A_AS_PATH = Some (mkA A_AS_PATH 64 (VPath true (wire_form (rfc6793 p2 p4))))
+    /\ aget m' A_AS4_PATH = None
+    /\ forall c, c <> A_AS_PATH -> c <> A_AS4_PATH -> aget m' c = aget m c.
+Proof. exact post_parse_merges. Qed.
+
+(* the pinned merge (defect D4): AS_PATH ( 23456 ) + AS4_PATH ( 70000 ) raises struct.error (None);
+   AS_PATH ( 65534 ) + an AS4_PATH without sequence loses the whole path; the RFC gives ( 70000 ) and ( 65534 ) *)
+Theorem C02_as4_merge_refuted :
+  merge_pinned [(2, [23456])] [(2, [70000])] = None
+  /\ merge_pinned [(2, [65534])] [] = Some (VPath false [])
+  /\ wire_form (rfc6793 [(2, [23456])] [(2, [70000])]) = [(2, [70000])]
+  /\ wire_form (rfc6793 [(2, [65534])] []) = [(2, [65534])].
+Proof. exact merge_pinned_refuted. Qed.
+
+(* non-vacuity: the third End-of-RIB path (an MP_UNREACH_NLRI without route, written without the extended
+   length bit) and an UPDATE carrying only an unrecognised non-transitive attribute *)
+Example C02_example :
+  dec_update no_opq (mkS true [(1,1);(2,1)] []) [0;0;0;6;128;15;3;0;2;1] = EndOfRib 2 1
+  /\ dec_update no_opq (mkS true [(1,1);(2,1)] []) [0;0;0;3;128;99;0] = EndOfRib 1 1.
+Proof. exact eor_third_path. Qed.
+
+Print Assumptions C02_agrees_with_reference_attributes.
+Print Assumptions C02_eor_v4.
+Print Assumptions C02_eor_mp.
+Print Assumptions C02_eor_only.
+Print Assumptions C02_as4_merge.
+Print Assumptions C02_as4_merge_refuted.
